@@ -42,13 +42,17 @@ def typing_tables(rep):
 
 def run(rep):
     return generic.run_generic(
-        rep, [('sqlparse.sql.Statement.get_type', None), ('sqlparse.sql.Token.__init__', 'body')] + tc.NAV_FUNCS[:4],
+        rep, [('sqlparse.sql.Statement.get_type', None), ('sqlparse.sql.Token.__init__', 'body'),
+              ('sqlparse.engine.grouping.align_comments', 'shape: WITH cte <comment> SELECT')] + tc.NAV_FUNCS[:4],
         structural=[typing_tables, tc.identity_side_conditions],
         assumptions=['the first word of a statement is lexed as the keyword token the tables give: bounded stand-in '
                      '(every DML/DDL keyword x casing x leading trivia x continuations)',
                      'for WITH statements the proved clause is: if the first Identifier / IdentifierList child behind WITH is '
                      'directly followed by a DML keyword, the result is that keyword; other shapes (e.g. several separate '
-                     'definition nodes) are covered by the bounded stand-in'],
+                     'definition nodes) are covered by the bounded stand-in',
+                     'a comment between the CTE definitions and the main keyword is folded into the definitions\' group by '
+                     'align_comments whatever whitespace separates them (shape case WITH cte <newline> comment <newline> SELECT), '
+                     'so that the walk of get_type() - which skips whitespace only - reaches the DML keyword'],
         trusted=['CPython re engine (lexing of the first word)'])
 
 
